@@ -87,15 +87,16 @@ def natDigits (n : Nat) : Str := ((revDigits (n + 1) n).reverse).map digitChar
 
 /-- `int(tok)` for a plain run of ASCII digits with an optional sign; anything else is a
 `ValueError` (underscores / non-ASCII digits are outside the modelled fragment) -/
+def signSplit : Str → Bool × Str
+  | [] => (false, [])
+  | c :: r => if c = '-' then (true, r) else if c = '+' then (false, r) else (false, c :: r)
+
 def pyInt (tok : Str) : Except Err Int :=
-  let (neg, ds) := match tok with
-    | '-' :: r => (true, r)
-    | '+' :: r => (false, r)
-    | r => (false, r)
-  if ds.isEmpty || !(ds.all isDigit) then .error .valueError
+  let p := signSplit tok
+  if p.2.isEmpty || !(p.2.all isDigit) then .error .valueError
   else
-    let v : Int := (valRev (ds.reverse.map digitVal) : Nat)
-    .ok (if neg then -v else v)
+    let v : Int := (valRev (p.2.reverse.map digitVal) : Nat)
+    .ok (if p.1 then -v else v)
 
 /-- `"%-10s" % s` -/
 def pad10 (s : Str) : Str := s ++ List.replicate (10 - s.length) ' '
@@ -229,6 +230,17 @@ def bytesRecord (record : Str) : Option Rec :=
 
 /-- `iter_fasta_records(data: bytes)`: `data.split(b">")` — on `>` **anywhere** -/
 def fastaBytes (text : Str) : List Rec := (splitOnC '>' text).filterMap bytesRecord
+
+/-- the *repaired* record splitter `re.split(rb"(?:\\A|(?<=\\n))>", data)` (fixes/C06-fasta-bytes-gt.patch):
+split only at a `>` that starts a line; `bol` = "at the beginning of a line" -/
+def splitLabelStart : Bool → Str → List Str
+  | _, [] => [[]]
+  | bol, c :: cs =>
+    if bol && c = '>' then [] :: splitLabelStart false cs
+    else consHead c (splitLabelStart (c = '\n') cs)
+
+/-- `iter_fasta_records(data: bytes)` with the repaired splitter -/
+def fastaBytesLS (text : Str) : List Rec := (splitLabelStart true text).filterMap bytesRecord
 
 /-! ### PAML parser (parse/paml.py) -/
 
